@@ -9,6 +9,20 @@ CHECKS = {
          "Generated-input search: every generated valid message must decode from its own encoding to equal fields; finite sub-domains (256 soft-bit octets, all MTS octets, boundary FNs x TN) are enumerated completely. Not a proof over 2^148 burst contents.",
          "Trusts the harness's field comparison and message builders; symmetric codec errors are C04's job.", "3/C01"),
 }
+CHECKS.update({
+ "C07": ("exploration", "complete enumeration of the reduced hopping domain against a spec-derived reference (firmware via ASan/UBSan driver around unmodified rfch.c; Python resolve), plus Hypothesis three-way differential python/firmware/spec",
+         "Finite-domain enumeration: thorough enumerates HSN x T1R x T2 x T3 x N completely at MAIO in {0,1,N-1,63} for the firmware (1.4e9 calls) and HSN 0 over every FN; quick a seed-rotated quarter of T1R at two MAIO values. Python side enumerates all (HSN,T2,T3,N) with rotating T1/MAIO. MAIO values other than the four are sampled by Hypothesis only.",
+         "Trusts refs/ref_hop.py + the in-driver reference (spec text, div/mod), RNTABLE copy, x86-64 clang build of the firmware.", "3/C07"),
+ "C13": ("exploration", "complete single-field and pairwise boundary lattice over 13 baselines against an independent range predicate, plus Hypothesis random combinations; send path observed on an in-memory UDP double",
+         "Enumerates every single and every pair of fields at boundary candidates (on, next to, far from each bound, None) for every class/version/modulation/NOPE baseline; validate(), gen_msg() and DATAInterface.send_msg() must all agree with refs/ref_valid. Triple-and-higher interactions are sampled only.",
+         "Trusts refs/ref_valid.py (transcribed from the property's range list) and the FakeNet socket double.", "3/C13"),
+ "C15": ("exploration", "Hypothesis histories (append in chunks) with model list oracle; all skip/count pairs; crash-point enumeration of truncation offsets",
+         "Generated capture files compared with the stored list through every read API, every (skip,count) pair, every index, and every truncation offset for files up to 900 octets (header/tail neighbourhoods + sampled body offsets beyond).",
+         "Crash = prefix of the byte stream; record layout recomputed with refs/ref_trxd.", "3/C15"),
+ "C19": ("exploration", "complete enumeration of all 2715648 frame numbers x 62 deltas through the unmodified C (gsm_utils.c, firmware sync.c) and Python helpers against a div/mod reference; full-hyperframe +1 walk",
+         "Exhaustive over the finite domain named in the property (every FN, every listed delta, the whole carry chain including the wrap), C under ASan/UBSan; Python compared with the reference and with the C output for every FN.",
+         "x86-64 clang build; sync.c linked with never-executed weak hardware stubs; reference decomposition is 4 lines of div/mod.", "3/C19"),
+})
 NOT_YET = {}
 
 def main():
